@@ -12,8 +12,8 @@ PROPS = "Props/C17.vo"
 MODEL_TARGETS = ["Corr/C17.vo"]
 OBLIGATION_FILES = ["Props/C17.v"]
 ANCHORS = [("ciscoconfparse2/ciscoconfparse2.py", "CiscoPassword")]
-RULE = ("stream t7ref: every reference salt 0..52 x plaintext lengths {1,2,3,52,53,54,126,127} + random lengths, and every length 1..127 at a random "
-        "salt, plaintext over printable ASCII minus ?\" (backslash included); the harness' own type-7 encoder (hard-coded Cisco key) produces the string, "
+RULE = ("stream t7ref: every reference salt 0..52 x plaintext lengths {1,2,3,52,53,54,126,127} + random lengths (thorough tier: the complete salt x length grid "
+        "0..52 x 1..127), and every length 1..127 at a random salt, plaintext over printable ASCII minus ?\" (backslash included); the harness' own type-7 encoder (hard-coded Cisco key) produces the string, "
         "the real decrypt_type_7 decodes it; Coq checks model-encoder = harness encoding (pins the xlat table read from the source), model decrypt7 = "
         "implementation, and implementation = plaintext. stream t7lib: decrypt_type_7(encrypt_type_7(p)) with passlib's random salt, accepted and rejected "
         "p (length 128+, ?, \"), output must be encrypt7 <its salt> p. stream t7passlib: passlib's encoder forced to each salt 0..52 vs the model's encrypt7. "
@@ -57,7 +57,8 @@ def gen_t7ref(rng, tier, escalate):
     cases = []
     fixed = [1, 2, 3, 52, 53, 54, 126, 127]
     for salt in range(53):
-        for n in fixed + [rng.randint(4, 125) for _ in range(8 if big else 2)]:
+        # thorough: the complete (salt, length) grid 0..52 x 1..127; quick: boundary lengths + random ones
+        for n in (range(1, 128) if big else fixed + [rng.randint(4, 125) for _ in range(6)]):
             cases.append({"salt": salt, "pw": _pw(rng, n)})
     for n in range(1, 128):
         for _ in range(4 if big else 1):
@@ -168,7 +169,7 @@ def gen_t7pl(rng, tier, escalate):
     big = tier == "thorough" or escalate
     cases = []
     for salt in range(53):
-        for n in [1, 53, 127] + [rng.randint(2, 126) for _ in range(6 if big else 1)]:
+        for n in [1, 53, 127] + [rng.randint(2, 126) for _ in range(40 if big else 3)]:
             cases.append({"salt": salt, "pw": _pw(rng, n)})
     return cases
 
@@ -203,7 +204,7 @@ def gen_fmt89(rng, tier, escalate):
     big = tier == "thorough" or escalate
     cases = []
     for kind in (8, 9):
-        for n in [1, 2, 3, 31, 32, 33, 63, 64, 65, 126, 127] + [rng.randint(4, 125) for _ in range(120 if big else 30)]:
+        for n in [1, 2, 3, 31, 32, 33, 63, 64, 65, 126, 127] + [rng.randint(4, 125) for _ in range(300 if big else 50)]:
             cases.append({"kind": kind, "pw": _pw(rng, n, ALLOWED), "cl": "ok"})
         cases.append({"kind": kind, "pw": "".join(ALLOWED), "cl": "ok"})
         for p, cl in ((_pw(rng, 128, ALLOWED), "long"), ("a?b", "bad?"), ('"', 'bad"'), ("x" * 127 + '"', 'bad"'), ("a\\b", "bad\\")):
